@@ -228,7 +228,8 @@ impl<'a> Gen<'a> {
                 self.count("e:ext");
                 if self.chance(1, 4) && from * 2 <= size {
                     let mid = from * 2;
-                    let op2 = if self.chance(3, 4) { op } else { CastOpType::IntZExt };
+                    // every ordered pair of kinds (the mixed pairs must not be merged)
+                    let op2 = if self.chance(1, 2) { CastOpType::IntZExt } else { CastOpType::IntSExt };
                     e_cast(op, size, e_cast(op2, mid, inner))
                 } else {
                     e_cast(op, size, inner)
@@ -1132,6 +1133,208 @@ pub fn gen_cycle_function(rng: &mut Rng, idx: usize, counts: &mut BTreeMap<Strin
     sub(&fname, &fname, blocks, Some("__stdcall"))
 }
 
+// ---------------------------------------------------------------------------------------------------
+// nested extension casts (trivial expression substitution, directly and after expression propagation)
+//
+// `outer(s, inner(m, x))` for every ordered pair of {IntZExt, IntSExt}, `x` a sub-piece of a register (1, 2 or
+// 4 bytes), written directly or through a temporary that expression propagation inlines (in the same block or
+// across a jump); the result reaches an observable.
+
+fn castnest_temp(m: u64) -> Variable {
+    match m {
+        2 => tmp("$H1", 2),
+        4 => tmp("$W1", 4),
+        8 => tmp("$U1", 8),
+        _ => tmp("$Q1", m),
+    }
+}
+
+/// defs / jumps that make the value `e` (of `s` bytes) observable
+fn castnest_use(rng: &mut Rng, e: Expression, s: u64, bname: &str, dn0: usize) -> (Vec<Term<Def>>, Vec<Term<Jmp>>, Vec<Term<Blk>>) {
+    use BinOpType::*;
+    let mut defs = Vec::new();
+    let mut dn = dn0;
+    let mut push = |defs: &mut Vec<Term<Def>>, d: Def| {
+        defs.push(Term { tid: tid(&format!("{}_d{}", bname, dn)), term: d });
+        dn += 1;
+    };
+    let mut extra = Vec::new();
+    let ret = |t: &str| j_return(t, e_const(0x401000, 8));
+    let slot = e_bin(IntSub, e_var("RSP", 8), e_const(0x18, 8));
+    let two_way = |c: Expression, extra: &mut Vec<Term<Blk>>| -> Vec<Term<Jmp>> {
+        let bt = format!("{}_t", bname);
+        let bf = format!("{}_f", bname);
+        extra.push(blk(&bt, vec![d_assign(&format!("{}_d0", bt), var("RAX", 8), e_const(1, 8))], vec![ret(&format!("{}_j0", bt))]));
+        extra.push(blk(&bf, vec![d_assign(&format!("{}_d0", bf), var("RAX", 8), e_const(2, 8))], vec![ret(&format!("{}_j0", bf))]));
+        vec![j_cbranch(&format!("{}_j0", bname), &bt, c), j_branch(&format!("{}_j1", bname), &bf)]
+    };
+    let jmps = match rng.below(5) {
+        0 => {
+            // store value
+            push(&mut defs, Def::Store { address: slot, value: e });
+            vec![ret(&format!("{}_j0", bname))]
+        }
+        1 if s == 8 => {
+            // store address
+            push(&mut defs, Def::Store { address: e, value: e_var("RBX", 8) });
+            vec![ret(&format!("{}_j0", bname))]
+        }
+        2 if s == 8 => {
+            // register at a return / call site
+            push(&mut defs, Def::Assign { var: var(*rng.pick(&["RAX", "RDX", "RDI"]), 8), value: e });
+            if rng.chance(1, 2) {
+                vec![ret(&format!("{}_j0", bname))]
+            } else {
+                vec![j_call(&format!("{}_j0", bname), "ext_a", None)]
+            }
+        }
+        3 if s <= 8 => {
+            // condition via comparison
+            let c = match rng.below(3) {
+                0 => e_bin(IntSLess, e, e_const(0, s)),
+                1 => e_bin(IntLess, e_const(if s == 8 { 0xffffffff } else { 0xffff }, s), e),
+                _ => e_bin(IntEqual, e_bin(IntRight, e, e_const(8 * s - 1, s)), e_const(1, s)),
+            };
+            two_way(c, &mut extra)
+        }
+        _ => {
+            if s == 16 {
+                // the high half of a 16-byte value
+                push(&mut defs, Def::Assign { var: var("RAX", 8), value: e_sub(8, 8, e) });
+            } else if s == 8 {
+                push(&mut defs, Def::Assign { var: var("RCX", 8), value: e_bin(IntAdd, e, e_const(1, 8)) });
+            } else {
+                push(&mut defs, Def::Store { address: slot, value: e });
+            }
+            vec![ret(&format!("{}_j0", bname))]
+        }
+    };
+    (defs, jmps, extra)
+}
+
+/// a function built around one nested extension `outer(s, inner(m, x))`
+pub fn gen_castnest_function(rng: &mut Rng, idx: usize, counts: &mut BTreeMap<String, u64>) -> Term<Sub> {
+    use CastOpType::*;
+    let fname = format!("sub_{}", idx);
+    let bn = |i: usize| format!("s{}_b{}", idx, i);
+    let mut count = |k: &str| *counts.entry(k.to_string()).or_insert(0) += 1;
+    let (n, m, s) = *rng.pick(&[(1u64, 2u64, 4u64), (1, 2, 8), (1, 4, 8), (1, 4, 8), (2, 4, 8), (2, 4, 8), (1, 2, 4), (4, 8, 16)]);
+    let outer = if rng.chance(1, 2) { IntZExt } else { IntSExt };
+    let inner = if rng.chance(1, 2) { IntZExt } else { IntSExt };
+    count(&format!("castnest:{}", match (outer, inner) {
+        (IntZExt, IntSExt) => "zext-of-sext",
+        (IntSExt, IntZExt) => "sext-of-zext",
+        (IntZExt, _) => "zext-of-zext",
+        _ => "sext-of-sext",
+    }));
+    let reg = *rng.pick(&REG8);
+    let lb = if rng.chance(1, 2) { 0 } else { rng.below(8 - n + 1) };
+    let src = if rng.chance(1, 5) {
+        e_sub(lb, n, e_bin(BinOpType::IntAdd, e_var(reg, 8), e_const(*rng.pick(&[1u64, 0x80, 0x7f]), 8)))
+    } else {
+        e_sub(lb, n, e_var(reg, 8))
+    };
+    let mid = e_cast(inner, m, src);
+    let mut blocks = Vec::new();
+    match rng.below(3) {
+        0 => {
+            // directly nested
+            count("castnest:direct");
+            let (d, j, extra) = castnest_use(rng, e_cast(outer, s, mid), s, &bn(0), 0);
+            blocks.push(blk(&bn(0), d, j));
+            blocks.extend(extra);
+        }
+        1 => {
+            // through a temporary in the same block (block-local insertion)
+            count("castnest:temp-local");
+            let t = castnest_temp(m);
+            let mut d0 = vec![Term { tid: tid(&format!("{}_d0", bn(0))), term: Def::Assign { var: t.clone(), value: mid } }];
+            let (d, j, extra) = castnest_use(rng, e_cast(outer, s, Expression::Var(t)), s, &bn(0), 1);
+            d0.extend(d);
+            blocks.push(blk(&bn(0), d0, j));
+            blocks.extend(extra);
+        }
+        _ => {
+            // through a temporary across a jump (the fixpoint tables)
+            count("castnest:temp-jump");
+            let t = castnest_temp(m);
+            let d0 = vec![Term { tid: tid(&format!("{}_d0", bn(0))), term: Def::Assign { var: t.clone(), value: mid } }];
+            blocks.push(blk(&bn(0), d0, vec![j_branch(&format!("{}_j0", bn(0)), &bn(1))]));
+            let (d, j, extra) = castnest_use(rng, e_cast(outer, s, Expression::Var(t)), s, &bn(1), 0);
+            blocks.push(blk(&bn(1), d, j));
+            blocks.extend(extra);
+        }
+    }
+    sub(&fname, &fname, blocks, Some("__stdcall"))
+}
+
+/// directed programs for the nested-extension shape (always run by h_c10, and kept in corpus/C10)
+pub fn castnest_directed_programs() -> Vec<(&'static str, Program)> {
+    use BinOpType::*;
+    use CastOpType::*;
+    let ext = || vec![extern_symbol("ext_a", "ext_a", vec![], vec![], false)];
+    let one_fn = |blocks: Vec<Term<Blk>>| program(vec![sub("sub_0", "sub_0", blocks, Some("__stdcall"))], ext(), vec![tid("sub_0")]);
+    let ret = |t: &str| j_return(t, e_const(0x401000, 8));
+    let cl = || e_sub(0, 1, e_var("RCX", 8));
+    let mut v = Vec::new();
+    // `$W1 = SExt:4(CL); RAX = ZExt:8($W1)` — the demo of the seeded change C10-d
+    v.push((
+        "cast-zext-of-sext-temp",
+        one_fn(vec![blk(
+            "b0",
+            vec![
+                d_assign("b0_d0", tmp("$W1", 4), e_cast(IntSExt, 4, cl())),
+                d_assign("b0_d1", var("RAX", 8), e_cast(IntZExt, 8, Expression::Var(tmp("$W1", 4)))),
+            ],
+            vec![ret("b0_j0")],
+        )]),
+    ));
+    // all four ordered pairs, directly nested, stored to memory
+    v.push((
+        "cast-pairs-direct",
+        one_fn(vec![blk(
+            "b0",
+            vec![
+                d_store("b0_d0", e_bin(IntSub, e_var("RSP", 8), e_const(8, 8)), e_cast(IntZExt, 8, e_cast(IntSExt, 4, cl()))),
+                d_store("b0_d1", e_bin(IntSub, e_var("RSP", 8), e_const(16, 8)), e_cast(IntSExt, 8, e_cast(IntZExt, 4, cl()))),
+                d_store("b0_d2", e_bin(IntSub, e_var("RSP", 8), e_const(24, 8)), e_cast(IntZExt, 8, e_cast(IntZExt, 2, e_sub(1, 1, e_var("RDX", 8))))),
+                d_store("b0_d3", e_bin(IntSub, e_var("RSP", 8), e_const(32, 8)), e_cast(IntSExt, 8, e_cast(IntSExt, 4, e_sub(2, 2, e_var("RBX", 8))))),
+            ],
+            vec![ret("b0_j0")],
+        )]),
+    ));
+    // the temporary is assigned in one block and extended in the next; the result decides a branch
+    v.push((
+        "cast-zext-of-sext-jump-cond",
+        one_fn(vec![
+            blk("b0", vec![d_assign("b0_d0", tmp("$H1", 2), e_cast(IntSExt, 2, e_sub(0, 1, e_var("RSI", 8))))], vec![j_branch("b0_j0", "b1")]),
+            blk(
+                "b1",
+                vec![],
+                vec![
+                    j_cbranch("b1_j0", "b2", e_bin(IntLess, e_const(0xffff, 8), e_cast(IntZExt, 8, Expression::Var(tmp("$H1", 2))))),
+                    j_branch("b1_j1", "b3"),
+                ],
+            ),
+            blk("b2", vec![d_assign("b2_d0", var("RAX", 8), e_const(1, 8))], vec![ret("b2_j0")]),
+            blk("b3", vec![d_assign("b3_d0", var("RAX", 8), e_const(2, 8))], vec![ret("b3_j0")]),
+        ]),
+    ));
+    // the extended value is a store address; 2-byte sub-piece from the middle of a register
+    v.push((
+        "cast-zext-of-sext-address",
+        one_fn(vec![blk(
+            "b0",
+            vec![
+                d_assign("b0_d0", tmp("$W1", 4), e_cast(IntSExt, 4, e_sub(2, 2, e_var("RDI", 8)))),
+                d_store("b0_d1", e_cast(IntZExt, 8, Expression::Var(tmp("$W1", 4))), e_var("RBX", 8)),
+            ],
+            vec![j_call("b0_j0", "ext_a", None)],
+        )]),
+    ));
+    v
+}
+
 /// directed programs for the assignment-cycle shape (always run by h_c10, and kept in corpus/C10)
 pub fn cycle_directed_programs() -> Vec<(&'static str, Program)> {
     use BinOpType::*;
@@ -1237,6 +1440,12 @@ pub fn gen_program(rng: &mut Rng, flavor: Flavor, counts: &mut BTreeMap<String, 
         if nsubs == 2 {
             subs.push(gen_function(rng, 1, &shape, flavor, counts));
         }
+        let externs = vec![extern_symbol("ext_a", "ext_a", vec![], vec![], false), extern_symbol("ext_b", "ext_b", vec![], vec![], false)];
+        return program(subs, externs, vec![tid("sub_0")]);
+    }
+    if flavor == Flavor::Behaviour && rng.chance(1, 10) {
+        // nested extension casts reaching an observable
+        let subs = vec![gen_castnest_function(rng, 0, counts)];
         let externs = vec![extern_symbol("ext_a", "ext_a", vec![], vec![], false), extern_symbol("ext_b", "ext_b", vec![], vec![], false)];
         return program(subs, externs, vec![tid("sub_0")]);
     }
@@ -1468,6 +1677,7 @@ pub fn crafted_programs() -> Vec<(&'static str, Program)> {
         ],
     ));
     v.extend(cycle_directed_programs());
+    v.extend(castnest_directed_programs());
     v.push(sa(
         "sa-align-8",
         vec![
